@@ -205,7 +205,14 @@ def run_project(sx, edges, points):
     for b in boxes:
         mesh.add(b)
     geo = {"terrain": ["type triSurfaceMesh", "file \"terrain.stl\""]}
-    mesh.add_geometry(geo)
+    if sx.flag("geometry_declared_twice"):
+        # the user corrects a geometry: the later declaration of a name is the one that counts
+        mesh.add_geometry({"terrain": ["type searchablePlane", "planeType pointAndNormal", "point (0 0 0)", "normal (0 0 1)"],
+                           "unused": ["type searchableSphere", "centre (0 0 0)", "radius 1"]})
+        mesh.add_geometry(geo)
+        geo = {"terrain": geo["terrain"], "unused": ["type searchableSphere", "centre (0 0 0)", "radius 1"]}
+    else:
+        mesh.add_geometry(geo)
     parsed, text, vtk = _write(sx, mesh)
     sx.reach("written")
     tag = f"project_side({side}, edges={edges}, points={points})"
@@ -215,7 +222,7 @@ def run_project(sx, edges, points):
     if len(parsed["faces"]) == 1:
         sx.prove(_quad_on_side(sx, parsed, parsed["faces"][0]["quad"], *bounds[1], side), f"{tag}: the projected quad is that side",
                  f"C06:faces:side:{side}")
-    sx.prove(parsed["geometry"] == {"terrain": geo["terrain"]}, f"{tag}: geometry section as declared", "C06:geometry",
+    sx.prove(parsed["geometry"] == geo, f"{tag}: geometry section as (last) declared", "C06:geometry",
              info={"written": parsed["geometry"]})
     used = {f["geometry"] for f in parsed["faces"]} | {g for e in parsed["edges"] if e["kind"] == "project" for g in e["data"]} \
         | {g for v in parsed["vertices"] for g in v["project"]}
